@@ -21,11 +21,11 @@ PER_LAYER = [
 ]
 
 GLUE = [
+    H("c07_glue_eth_ipv4_tcp", "c03::glue", seed_group="glue-heavy", unwind=2, timeout=1500, bounds="from_ethernet: Ethernet II -> IPv4 (symbolic IHL) -> TCP, 0..=62 bytes", encodes=["SlicedPacket::from_* (SlicedPacketCursor)", "all layer constructors on the path"]),
     H("c07_glue_macsec_vlan_ipv4_udp", "c03::glue", seed_group="glue-heavy", unwind=4, timeout=1500, bounds="from_ether_type(MACSEC): MACsec(unmodified, no SCI) -> VLAN -> IPv4(IHL 5) -> UDP, 0..=42 bytes; short length, total length, UDP length, fragment bits, all other bytes symbolic", encodes=["SlicedPacket::from_* (SlicedPacketCursor)", "all layer constructors on the path"]),
     H("c07_glue_ipv6_route_udp", "c03::glue", unwind=3, timeout=1500, bounds="from_ip: IPv6 -> routing header (symbolic size) -> UDP, 0..=60 bytes", encodes=["SlicedPacket::from_* (SlicedPacketCursor)", "all layer constructors on the path"]),
     H("c07_glue_sll_arp", "c03::glue", unwind=2, timeout=1500, bounds="from_linux_sll: SLL(host, ARPHRD_ETHER) -> ARP with symbolic address sizes, 0..=44 bytes", encodes=["SlicedPacket::from_* (SlicedPacketCursor)", "all layer constructors on the path"]),
     H("c07_glue_vlan_x4", "c03::glue", seed_group="glue-heavy", unwind=5, timeout=1500, bounds="from_ether_type(0x88a8): four stacked VLAN tags (cap of 3 link extensions), 0..=20 bytes", encodes=["SlicedPacket::from_* (SlicedPacketCursor)", "all layer constructors on the path"]),
-    H("c07_glue_eth_ipv4_tcp", "c03::glue", seed_group="glue-heavy", unwind=2, timeout=1500, bounds="from_ethernet: Ethernet II -> IPv4 (symbolic IHL) -> TCP, 0..=62 bytes", encodes=["SlicedPacket::from_* (SlicedPacketCursor)", "all layer constructors on the path"]),
     H("c07_glue_ipv4_icmp", "c03::glue", unwind=2, timeout=1500, bounds="from_ip: IPv4(IHL 5) -> ICMPv4 incl. timestamp rule and fragment bits, 0..=44 bytes", encodes=["SlicedPacket::from_* (SlicedPacketCursor)", "all layer constructors on the path"]),
     H("c07_glue_ipv6_frag_icmp6", "c03::glue", unwind=3, timeout=1500, bounds="from_ip: IPv6 -> fragment header -> ICMPv6, 0..=60 bytes", encodes=["SlicedPacket::from_* (SlicedPacketCursor)", "all layer constructors on the path"]),
     H("c07_glue_any_ether_type_44", "c03::glue", tier="thorough", unwind=5, timeout=5400, bounds="from_ether_type with symbolic ether type, every byte string of length 0..=44", encodes=["SlicedPacket::from_* (SlicedPacketCursor)", "all layer constructors"]),
